@@ -24,6 +24,10 @@ func init() {
 			ruleJSONWalkerOut(c)
 			ruleFlatWalker(c)
 			ruleMapKeyPlain(c)
+			ruleNullOnlyForPresence(c)
+			ruleMapEntryShape(c)
+			ruleLeadCountEmpty(c)
+			ruleStructDescriptor(c)
 			ruleLookupStateless(c, []string{"plenccodec.Descriptor.readAsStruct"})
 		},
 	})
